@@ -37,6 +37,10 @@ def inputs(tier):
     out += [dict(i, chains='case-twins') for i in out if i['src'] == 'corpus' and i['d']['t'] in ('pair', 'cluster')][:: (1 if tier == 'thorough' else 3)]
     for key in (('3SGB', '1HPX') if tier == 'quick' else ('3SGB', '1HPX', '4DFR')):
         out.append(dict(src='corpus', d=corpus.file_desc(key)))
+    # multi-conformation inputs (the selected chain is completed from the other conformations)
+    for d in (dict(kind='alt', layout=[['A', 'ASP'], ['B', 'ASPs']], lys=[['B', 'LYSs'], ['C', 'LYS']]), dict(kind='alt', layout=[['A', 'ASP'], ['B', 'ALA']]),
+              dict(kind='model', layout=[[1, 'ASP'], [2, 'ASPnoCG'], [3, 'absent']]), dict(kind='model', layout=[[1, 'ASP'], [2, 'ASPs']], noter=True)):
+        out.append(dict(src='c08', d=d))
     return out
 
 
@@ -44,6 +48,12 @@ def build(inp, seed):
     if inp['src'] == 'stream':
         items = c01.build_stream(inp['d'], seed)
         s = None if items is None else gen.S(items)
+    elif inp['src'] == 'c08':
+        from . import c08
+        d = dict(inp['d'], layout=[tuple(x) for x in inp['d']['layout']])
+        if d.get('lys'):
+            d['lys'] = [tuple(x) for x in d['lys']]
+        s = c08.build(d, seed)
     else:
         s = corpus.build(inp['d'], seed)
     if s is not None and inp.get('chains') == 'case-twins':
@@ -94,7 +104,7 @@ def co_options(s, sel, case, tier):
     """Other options given to both runs: the equivalence is claimed whatever else is on the command line.  Titrate-only lists
     naming (a) only residues of selected chains, (b) only residues of deleted chains, (c) both; coupled display; keep-protons."""
     out = [()]
-    if case['src'] != 'corpus' or case['d'].get('t') == 'file' and tier == 'quick':
+    if case['src'] not in ('corpus', 'c08') or case['d'].get('t') == 'file' and tier == 'quick':
         return out
     first = {}
     for a in s.atoms:
